@@ -306,9 +306,24 @@ def check_table_columns(chk, ix):
         rows = []
         for i in range(2):
             cells = st.alloc(HObj("list", kind="list", items=["%d-a" % i, "%d-b" % i], label="cells"))
-            rows.append(st.alloc(HObj(rc, {"headings": H, "cells": cells, "line": 4 + i, "comments": None}, label="row%d" % i)))
+            from .abscall import construct as _construct
+            o_ = _construct(it, st, ClassVal(rc), [H, cells], {"line": 4 + i}, None)
+            if len(o_) != 1 or o_[0][1] != "val":
+                raise AnalysisError("Row(...) not evaluable: %r" % ([(k, v) for _, k, v in o_][:2],))
+            st = o_[0][0]
+            st.wobj(o_[0][2]).label = "row%d" % i
+            rows.append(o_[0][2])
         me = st.alloc(HObj(tc, {"headings": H, "rows": st.alloc(HObj("list", kind="list", items=rows)), "line": 3, "modified": False}, label="table"))
         cargs = [st.alloc(HObj("list", kind="list", items=list(a))) if isinstance(a, tuple) and name == "add_column" else a for a in args]
+        # the rows have been used before (an outline was built from them): row.items() was asked once already
+        ri = rc.lookup("items")
+        if ri is None:
+            raise AnalysisError("anchor missing: Row.items")
+        for r in rows:
+            o0 = it.call_function(st, ri, [], {}, None, self_val=r)
+            if len(o0) != 1 or o0[0][1] != "val":
+                raise AnalysisError("Row.items not evaluable: %r" % ([(k, v) for _, k, v in o0][:2],))
+            st = o0[0][0]
         outs = it.call_function(st, f, cargs, {}, None, self_val=me)
         chk.absorb(it)
         chk.instance("B7")
@@ -328,6 +343,19 @@ def check_table_columns(chk, ix):
                     problems.append("%s sees the headings %r, the table has %r" % (ro.label, rh, th))
                 elif not isinstance(cells, list) or len(cells) != len(th):
                     problems.append("%s has the cells %r for the headings %r" % (ro.label, cells, th))
+                else:
+                    o1 = it.call_function(s2.fork(), ri, [], {}, None, self_val=r)
+                    pairs = None
+                    if len(o1) == 1 and o1[0][1] == "val":
+                        try:
+                            kind, seq = it.iter_values(o1[0][0], o1[0][2], None)
+                            pairs = [tuple(x) if isinstance(x, tuple) else x for x in seq] if kind == "concrete" else None
+                        except AnalysisError:
+                            pairs = None
+                    if pairs is None:
+                        raise AnalysisError("Row.items() after Table.%s not evaluable" % name)
+                    if pairs != list(zip(th, cells)):
+                        problems.append("%s.items() gives %r, its headings and cells are %r" % (ro.label, pairs, list(zip(th, cells))))
         if not problems:
             chk.ok("B7", {"operation": "%s(%s)" % (name, ", ".join(map(repr, args))), "headings": th}, nontrivial_key=(name, repr(args)))
         else:
@@ -530,3 +558,53 @@ def check_configured_schema_reaches_builder(chk, ix):
                              "with scenario_outline_annotation_schema = %r in the configuration, ScenarioOutline.scenarios creates its builder with %r; "
                              "expected %r: the configured name schema is ignored, row scenarios get the default names" % (schema, got[0], expect),
                              file=f.file, line=f.lineno, stmt="def setup_model"))
+
+
+WHAT["B11"] = ("generated scenario names: placeholders of the outline title AND of the Examples title are rendered from the row, and the "
+               "name schema is filled with the rendered titles ({name}, {examples.name}, {row.id}, {row.index}, {examples.index})")
+
+
+def check_scenario_names_concrete(chk, ix):
+    """B11: ScenarioOutlineBuilder.make_scenario_name evaluated (render_template included) for several name schemas on a row <a>=X."""
+    chk.rule("B11", WHAT["B11"])
+    bc = ix.cls("behave.model:ScenarioOutlineBuilder")
+    f = bc.lookup("make_scenario_name")
+    if f is None:
+        raise AnalysisError("anchor missing: ScenarioOutlineBuilder.make_scenario_name")
+    cases = [
+        ("{name} -- @{row.id} {examples.name}", "Buy <a>", "Shop <a>", "Buy X -- @1.2 Shop X"),
+        ("{name} -- @{row.id} {examples.name}", "Plain", "", "Plain -- @1.2 "),
+        ("{name}:{examples.index}/{row.index}", "T <a><b>", "E", "T XY:1/2"),
+        ("{examples.name}|{name}", "no placeholder", "<b>-<a>", "Y-X|no placeholder"),
+    ]
+    for schema, title, ex_name, want in cases:
+        it = Interp(ix, name="make_scenario_name")
+        it.int_sat = 100
+        it.list_cap = 100
+        st = State()
+        st.frames = []
+        me = st.alloc(HObj(bc, {"annotation_schema": schema}, label="builder"))
+        ex = st.alloc(HObj("ExamplesTok", {"name": ex_name, "index": 1}, label="examples"))
+
+        def row_items(it_, st_, a, k, n):
+            return [(st_, "val", (("a", "X"), ("b", "Y")))]
+        it.stubs["RowTok.items"] = row_items
+        row = st.alloc(HObj("RowTok", {"id": "1.2", "index": 2}, label="row"))
+        try:
+            # the placeholders build_scenarios hands over (texts), as make_scenario_for passes them on
+            params = st.alloc(HObj("dict", kind="dict", items=[("examples.name", ex_name), ("examples.index", "1"), ("row.index", "2"), ("row.id", "1.2")]))
+            outs = it.call_function(st, f, [title, ex, row, params], {}, None, self_val=me)
+        except AnalysisError as e:
+            raise AnalysisError("make_scenario_name not evaluable (%r): %s" % (schema, e))
+        chk.absorb(it)
+        chk.instance("B11")
+        if len(outs) != 1 or outs[0][1] != "val" or not isinstance(outs[0][2], str):
+            raise AnalysisError("make_scenario_name(%r, %r) under %r does not fold to a string: %r" % (title, ex_name, schema, [(k, v) for _, k, v in outs][:2]))
+        got = outs[0][2]
+        if got == want:
+            chk.ok("B11", {"schema": schema, "outline": title, "examples": ex_name, "name": got}, nontrivial_key=(schema, title))
+        else:
+            chk.fail(Finding("B11", f.fullname, "%r / %r under %r -> %r" % (title, ex_name, schema, got),
+                             "outline %r, Examples %r, row <a>=X <b>=Y (row.id 1.2, row.index 2, examples.index 1), name schema %r: the generated name is %r, "
+                             "expected %r" % (title, ex_name, schema, got, want), file=f.file, line=f.lineno, stmt="def make_scenario_name"))
+    chk.require_instances("B11", 4)
